@@ -95,6 +95,15 @@ def main():
     start_watchdog(int(os.environ.get(
         "VERIF_WATCHDOG", "900" if args.tier == "quick" else "7200")))
     seed = int(os.environ.get("VERIF_SEED", "0") or 0)
+    replay_data = None
+    if args.replay:
+        # a replay re-executes the recorded case; streams that re-run their
+        # seeded generator need the recorded seed and tier
+        with open(args.replay) as fh:
+            replay_data = json.load(fh)
+        seed = int(replay_data.get("seed", seed))
+        if replay_data.get("tier") in ("quick", "thorough"):
+            args.tier = replay_data["tier"]
     t0 = time.time()
 
     # 1. package from the working tree
@@ -192,9 +201,7 @@ def main():
 
         # 5. correspondence + direct oracle
         if args.replay:
-            with open(args.replay) as fh:
-                data = json.load(fh)
-            mod.replay(ctx, data)
+            mod.replay(ctx, replay_data)
         else:
             mod.run(ctx)
             if getattr(mod, "BOTH_BACKENDS", False):
